@@ -16,6 +16,7 @@ MODULES = {
     "C15": "harness.c15_obs",
     "C16": "harness.c16_dist",
     "C19": "harness.c19_bandits",
+    "C12": "harness.c12_vecenv",
 }
 
 TECH = "symbolic execution of the real Python functions on z3-backed proxies (re-execution path exploration); each obligation decided per path by z3 as pc ∧ assumptions ∧ ¬obligation; sat models replayed on the real code"
@@ -67,6 +68,11 @@ CLAIMED = {
         "level_note": NOTE + "; Rainbow's loss algebra is C18; weights on real networks are concrete seeded values (symbolic weights only on stub networks); chaining of soft updates is by induction over the one-step identity",
         "technique": TECH,
     },
+    "C12": {
+        "level_text": "bounded symbolic verification, in-process, of the real _async_worker command loop (reset, step..., close) driven by a scripted pipe and a scripted sub-environment, with the real process_transition / get_placeholder_value / write_to_shared_memory / create_shared_memory (ctypes arrays) / Observations; of PettingZooVecEnv.step -> step_async -> step_wait on an instance wired to in-memory pipes; and of PettingZooAutoResetParallelWrapper.step: for all terminated/truncated flags, rewards, presence of agents in the returned dicts and actions at agents<=2(3), envs<=3, steps<=2, vector / image / dict / tuple observation spaces: what the worker sends for env i and writes at slot i is what env i returned (placeholders for absent agents), other slots are untouched, env i is reset iff every reporting agent terminated or truncated and the observation surfaced is then the new episode's first, env i is handed exactly [actions[a][i] for a in agents], the parent assembles position i from worker i, copy mode does not alias shared memory, and the wrapper restarts under the same condition",
+        "level_note": NOTE + "; observation contents are concrete pairwise-distinct labels (typed shared memory), flags/rewards/actions symbolic; real process scheduling, pickling, cross-process shared memory, seeds are outside",
+        "technique": TECH,
+    },
     "C14": {
         "level_text": "bounded symbolic verification of the real action selection of DQN (get_action/_get_action), CQN, RainbowDQN (numpy masked arg-max path), DDPG, TD3 (noise + clip), PPO (evaluation-mode clip / squashed policy) and DeterministicActor.rescale_action on real agents with stub policy networks: for all network outputs (ties included), masks with >= 1 legal action, epsilon in [0,1], every uniform draw in [0,1) and all exploration noise at batch<=2(3), actions<=3(4), 2-3 action dims with asymmetric per-dimension bounds: the action has the batch shape, is a valid index whose mask bit is 1, is a best allowed action when exploration is off (epsilon 0 / training False), lies inside [low,high] for the continuous learners and evaluation-mode PPO, and rescale_action is the affine image of the activation range",
         "level_note": NOTE + "; that a real network's output activation delivers the assumed range, MADDPG/MATD3/IPPO/bandit action selection and MultiDiscrete/MultiBinary sampling (C16) are outside this check",
@@ -103,4 +109,4 @@ NOT_APPLICABLE = {
 
 # designed in DESIGN.md §5 but the check is not built/registered yet (moves to CLAIMED when it lands)
 PENDING = {pid: "solver-based check designed (DESIGN.md §5) but not yet built in this tree; not claimed until it is"
-           for pid in ["C12", "C13"]}
+           for pid in ["C13"]}
